@@ -11,9 +11,11 @@ var Registry = map[string]func(tier string){
 	"C02": C02,
 	"C03": C03,
 	"C04": C04,
+	"C10": C10,
 	"C12": C12,
 	"C13": C13,
 	"C14": C14,
+	"C15": C15,
 	"C20": C20,
 }
 
